@@ -205,7 +205,10 @@ func run(t *rapid.T, prop string) {
 	sampleKey := core.NewSplitMix(rapid.Uint64().Draw(t, "samplekey"))
 
 	s := core.NewSched(pol)
-	s.MaxSteps = 30*est + 20000 // bounded liveness: far beyond what the same operations need alone
+	// bounded liveness: a global cap far beyond any legitimate run; when it is
+	// hit, the operations in flight are re-run alone under a step counter
+	const stepCap = 3_000_000
+	s.MaxSteps = stepCap
 	setYieldHook(s.Yield)
 	fam.Atomic = s.Atomic
 	defer func() {
@@ -214,6 +217,8 @@ func run(t *rapid.T, prop string) {
 	}()
 	var records []*opRecord
 	inOpSites := map[string]int{}
+	inflight := make([]*fam.Exec, nclients)
+	opStart := make([]int64, nclients)
 	for c := 0; c < nclients; c++ {
 		c := c
 		var task *core.Task
@@ -222,9 +227,11 @@ func run(t *rapid.T, prop string) {
 				var ex *fam.Exec
 				s.Atomic(func() { ex = fam.Resolve(w, d, c) })
 				rec := &opRecord{Client: c, Desc: ex.Desc, ex: ex}
+				inflight[c], opStart[c] = ex, task.Steps
 				task.InOp++
 				rec.conc = safeRun(ex)
 				task.InOp--
+				inflight[c] = nil
 				s.Atomic(func() {
 					records = append(records, rec)
 					add(rec.conc.New)
@@ -270,17 +277,43 @@ func run(t *rapid.T, prop string) {
 		return
 	}
 	if !ok && s.Overrun && !violated {
-		if prop == "C11" {
-			core.Violation(t, "C11:liveness:no-termination", fmt.Sprintf("the clients needed %d scheduling points alone but had not finished after %d under this schedule: an operation does not terminate when run concurrently", est, s.Steps), tr)
-			return
+		core.Probe("step-cap-reached")
+		if prop != "C11" {
+			return // termination under concurrency is C11's business
 		}
-		core.Probe("overrun-not-judged-by-C01")
+		// which operation was in flight, how much did it consume, and how much
+		// does the very same operation need when it runs alone?
+		tasks := s.Tasks()
+		setYieldHook(nil)
+		for c, ex := range inflight {
+			if ex == nil {
+				continue
+			}
+			consumed := tasks[c].Steps - opStart[c]
+			alone := core.NewSched(core.Sequential{})
+			alone.MaxSteps = stepCap / 20
+			setYieldHook(alone.Yield)
+			fam.Atomic = alone.Atomic
+			alone.Go("alone", func() { safeRun(ex) })
+			finished := alone.Run()
+			setYieldHook(nil)
+			fam.Atomic = func(f func()) { f() }
+			if finished && consumed > 20*alone.Steps+10000 {
+				core.Violation(t, "C11:liveness:no-termination", fmt.Sprintf("%s (client %d) needs %d scheduling points when run alone but had consumed %d without finishing under this schedule", ex.Desc, c, alone.Steps, consumed), tr)
+				return
+			}
+		}
+		core.Probe("step-cap-reached-by-long-operations")
 		return
 	}
 	if !ok {
 		t.Fatalf("harness: run did not finish (deadlock=%v overrun=%v steps=%d)", s.Deadlock, s.Overrun, s.Steps)
 	}
 	for _, r := range records {
+		core.Probe("op:" + r.ex.Kind)
+		if strings.HasPrefix(r.conc.Canon, "Err:") {
+			core.Probe("op-result-is-error")
+		}
 		if r.conc.Panic != "" {
 			core.Probe("operation-panicked-under-schedule")
 		}
